@@ -33,4 +33,63 @@ var Properties = map[string]PropDef{
 			{Name: "types.ZZC08Laws", Quick: map[string]int{"K": 2, "D": 0}, Thorough: map[string]int{"K": 2, "D": 1}, Depth: 200},
 		},
 	},
+	"C10": {
+		ID:     "C10",
+		Bounds: "quick: 1 definition of depth<=2, 2 definitions of depth 1, 3 definitions whose bodies are 1 or a bare name (all alias chains and cycles through three names, with undefined and duplicate names); names possibly duplicated or undefined, optional head annotation, 10 constructors, 3 labels, all shift mode pairs; thorough: same bounds (deeper products exceed the 30-minute budget)",
+		Assumptions: []string{
+			"input is what the grammar actions build: SessionTypeInitial trees converted with ConvertSessionTypeInitialToSessionType, then SetModalityTypeDef, then SanityChecksTypeDefinitions (the order of parser.expandProcesses + Typecheck)",
+			"reference well-formedness = names defined exactly once, distinct branch labels, alias chains reach a constructor, modes uniform up to shifts with the inferred definition modes, shifts legal, head annotation = mode of the head",
+			"fmt.Errorf results are opaque non-nil errors (only nil-ness is asserted)",
+		},
+		Outside: "more than 3 definitions, bodies deeper than 2, more than 2 branches per choice, upper-case mode words",
+		Harnesses: []HarnessDef{
+			{Name: "types.ZZC10WF", Quick: map[string]int{"K": 1, "D": 2}},
+			{Name: "types.ZZC10WF", Quick: map[string]int{"K": 2, "D": 1}},
+			{Name: "types.ZZC10WF", Quick: map[string]int{"K": 3, "D": 1, "LEAN": 2}},
+			{Name: "types.ZZC10BadMode"},
+		},
+	},
+	"C16": {
+		ID:     "C16",
+		Bounds: "quick: 1 definition of depth<=2, 3 alias-or-unit definitions; thorough: additionally 2 definitions of depth 1 (same generator as C10)",
+		Assumptions: []string{
+			"input is what the grammar actions build (SessionTypeInitial trees + optional head annotation), pushed through the real conversion and SetModalityTypeDef",
+			"reference inference: annotation governs its type down to the next shift; a shift continuation takes the shift's source mode; a name carries its definition's mode; otherwise the mode fixed by the components, else replicable; asserted only where the reference accepts the definitions (ill-formed input: only C10's rejection matters)",
+			"order stability is checked for the reversed declaration list",
+		},
+		Outside: "signature / cut-annotation types (AddMissingModalities) are exercised by the typing-rule harnesses; arbitrary permutations beyond reversal; more than 3 definitions",
+		Harnesses: []HarnessDef{
+			{Name: "types.ZZC16Infer", Quick: map[string]int{"K": 1, "D": 2}},
+			{Name: "types.ZZC16Infer", Quick: map[string]int{"K": 3, "D": 1, "LEAN": 2}},
+			{Name: "types.ZZC16Infer", Quick: map[string]int{"K": 2, "D": 1}, ThoroughOnly: true},
+		},
+	},
+	"C11": {
+		ID:     "C11",
+		Bounds: "quick: every rune string of length <= 3 (each rune any Unicode scalar value) and length <= 5 over the representative alphabet {/ * a 1 space newline @ U+0000}; thorough: length <= 4 over all runes and <= 6 over the representative alphabet. Unwinding: 60 loop iterations per frame, call depth 60",
+		Assumptions: []string{
+			"strings.NewReader / bufio.Reader are modelled by the documented ReadRune / UnreadRune contract over a sequence of runes; UTF-8 decoding itself is not modelled (the input domain is rune sequences)",
+			"bytes.Buffer modelled as a rope; positions (TokenPos) are computed by the real code",
+		},
+		Outside: "inputs longer than the bound; the LALR driver and semantic actions (gritsParse); memory consumption",
+		Harnesses: []HarnessDef{
+			{Name: "parser.ZZC11Lex", Quick: map[string]int{"N": 3}, Thorough: map[string]int{"N": 4}, Depth: 60, Loop: 60, MaxPaths: 3000000},
+			{Name: "parser.ZZC11Lex", Quick: map[string]int{"N": 5, "ALPHA": 1}, Thorough: map[string]int{"N": 6, "ALPHA": 1}, Depth: 60, Loop: 60, MaxPaths: 3000000},
+		},
+	},
+	"C12": {
+		ID:     "C12",
+		Bounds: "lexer: rune strings as C11 (quick length <= 3, thorough <= 4; representative alphabet <= 5 / <= 6); expandProcesses: statement lists of length <= 3 (quick) / <= 4 (thorough) of all five kinds with symbolic names",
+		Assumptions: []string{
+			"reference tokenizer transcribed from the README grammar (keywords, punctuation, comments, whitespace as the scanner defines it)",
+			"spellings the scanner accepts but the README does not document (-o, %, drop, receive, forward, accept, ...) and block comments containing '*' are assumed away",
+			"readers modelled as in C11",
+		},
+		Outside: "that the yacc `statements` actions append every statement (LALR driver not encoded); texts longer than the bound",
+		Harnesses: []HarnessDef{
+			{Name: "parser.ZZC12Lex", Quick: map[string]int{"N": 3}, Thorough: map[string]int{"N": 4}, Depth: 60, Loop: 60, MaxPaths: 3000000},
+			{Name: "parser.ZZC12Lex", Quick: map[string]int{"N": 5, "ALPHA": 1}, Thorough: map[string]int{"N": 6, "ALPHA": 1}, Depth: 60, Loop: 60, MaxPaths: 3000000},
+			{Name: "parser.ZZC12Expand", Quick: map[string]int{"N": 3}, Thorough: map[string]int{"N": 4}},
+		},
+	},
 }
